@@ -15,7 +15,7 @@ func init() {
 	register(&Property{
 		ID:        "C09",
 		Technique: "static analysis: read-your-writes rule over the package-local call graph (loops over a command's elements that read committed state, write the batch and count must de-duplicate the element), guard implication by truth table (meta deleted iff size <= 0), FOLLOW pairing of the two sorted-set indexes",
-		Explanation: "Decides three structural conditions of 'stored size = number of stored elements': (N1) in package rockredis every loop over a slice parameter of a write command whose body (through same-package callees) both reads committed state and writes the batch, and which updates a counter that flows into *IncrSize / IncrTableKeyCount or the reply, de-duplicates the element first (reads do not see the uncommitted batch, so a member repeated inside one command is otherwise counted twice); (N2) the size meta key is deleted exactly when the size reaches zero and the table key counter moves only on the empty<->non-empty transitions; (N3) the member->score and score->member keys of a sorted set are written and deleted together and a score change deletes the old score key.",
+		Explanation: "Decides three structural conditions of 'stored size = number of stored elements': (N1) in package rockredis every loop over a slice parameter of a write command whose body (through same-package callees) both reads committed state and writes the batch, and which updates a counter that flows into *IncrSize / IncrTableKeyCount or the reply, de-duplicates the element first (reads do not see the uncommitted batch, so a member repeated inside one command is otherwise counted twice); (N2) the size meta key is deleted exactly when the size reaches zero and the table key counter moves only on the empty<->non-empty transitions; (N3) the member->score and score->member keys of a sorted set are written and deleted together and a score change deletes the old score key. (N6) index clamps: for every `if x REL B { x = E }` on integers in package rockredis with E in {B-1, B, B+1}, no value that passes the test lies beyond E (a clamp `if stop > llen { stop = llen-1 }` lets stop == llen through).",
 		NotDecided: "agreement of the different enumeration commands with each other (iterator behaviour), list head/tail arithmetic, numeric correctness of the counts, failed commands inside one apply batch (C11-A3).",
 		Assumptions: []string{"the de-duplication idiom is recognised by shape (a map keyed by the element with membership test and insertion, in the loop or in a helper applied to the slice before the loop)", "callees are resolved statically within package rockredis"},
 		Run: runC09,
@@ -443,4 +443,107 @@ func runC09N45(c *Ctx) {
 	r.Clause("C09-N5", "a range deletion of a collection's elements addresses that collection on both ends")
 	n := RangePairs(c, "C09-N5")
 	r.Min("C09-N5", n, 6, "DeleteRange calls with start/stop encoded bounds")
+}
+
+func init() {
+	old := registry["C09"].Run
+	registry["C09"].Run = func(c *Ctx) { old(c); runC09N6(c) }
+}
+
+// N6: an index clamp leaves no gap. For `if x REL B { x = E }` on integers (no else), every value the test lets
+// through must lie on the allowed side of E: with `x > B` and E = B-1 the value x == B escapes the clamp although B-1
+// was taken to be the largest legal index. Decided on canonical terms for E in {B-1, B, B+1}.
+func runC09N6(c *Ctx) {
+	r := c.R
+	r.Clause("C09-N6", "index clamps in the collection commands leave no gap between the test and the clamped value")
+	n := 0
+	for _, fn := range c.P.Funcs() {
+		if load.ShortPkg(fn.Pkg.PkgPath) != "rockredis" || fn.Decl.Body == nil || strings.HasSuffix(c.P.Fset.Position(fn.Decl.Pos()).Filename, "_test.go") {
+			continue
+		}
+		var ifs []*ast.IfStmt
+		ast.Inspect(fn.Decl.Body, func(nd ast.Node) bool {
+			if is, ok := nd.(*ast.IfStmt); ok && is.Else == nil && is.Init == nil && len(is.Body.List) == 1 {
+				ifs = append(ifs, is)
+			}
+			return true
+		})
+		if len(ifs) == 0 {
+			continue
+		}
+		var u *an.Unit
+		for _, is := range ifs {
+			as, ok := is.Body.List[0].(*ast.AssignStmt)
+			if !ok || len(as.Lhs) != 1 || len(as.Rhs) != 1 || as.Tok.String() != "=" {
+				continue
+			}
+			be, ok := ast.Unparen(is.Cond).(*ast.BinaryExpr)
+			if !ok {
+				continue
+			}
+			op := be.Op.String()
+			if op != "<" && op != "<=" && op != ">" && op != ">=" {
+				continue
+			}
+			info := fn.Pkg.TypesInfo
+			xt := info.TypeOf(as.Lhs[0])
+			if xt == nil {
+				continue
+			}
+			if b, ok := xt.Underlying().(*types.Basic); !ok || b.Info()&types.IsInteger == 0 {
+				continue
+			}
+			if u == nil {
+				var err error
+				if u, err = c.W.Unit(fn.Name); err != nil {
+					break
+				}
+			}
+			// raw terms: the clamped variable must not be expanded into its definition
+			raw := func(e ast.Expr) string { return types.ExprString(ast.Unparen(e)) }
+			x := raw(as.Lhs[0])
+			var bound string
+			switch {
+			case raw(be.X) == x:
+				bound = raw(be.Y)
+			case raw(be.Y) == x:
+				bound = raw(be.X)
+				op = map[string]string{"<": ">", "<=": ">=", ">": "<", ">=": "<="}[op]
+			default:
+				continue
+			}
+			e := raw(as.Rhs[0])
+			delta, known := 0, true
+			switch e {
+			case bound:
+				delta = 0
+			case bound + " - 1", "(" + bound + ") - 1":
+				delta = -1
+			case bound + " + 1", "(" + bound + ") + 1":
+				delta = 1
+			default:
+				known = false
+			}
+			if !known {
+				continue
+			}
+			n++
+			// upper clamp: the largest value let through is B (for >) or B-1 (for >=); it must be <= E = B+delta
+			// lower clamp: the smallest value let through is B (for <) or B+1 (for <=); it must be >= E
+			okc := true
+			switch op {
+			case ">":
+				okc = 0 <= delta
+			case ">=":
+				okc = -1 <= delta
+			case "<":
+				okc = delta <= 0
+			case "<=":
+				okc = delta <= 1
+			}
+			r.Check("C09-N6", fmt.Sprintf("%s: clamp `if %s %s %s { %s = %s }` leaves no gap", fn.Name, x, op, bound, x, e), c.P.Pos(is.Pos()), okc,
+				"the value "+x+" == "+bound+" passes the test but lies beyond the clamped value "+e)
+		}
+	}
+	r.Min("C09-N6", n, 4, "index clamps in package rockredis")
 }
